@@ -135,3 +135,109 @@ impl Scheduler for RandomCopy {
         self.data_source.next_u64()
     }
 }
+
+use rand::seq::index::sample;
+use std::collections::HashMap;
+
+/// PctScheduler copy. 300 faithful; 301 change points sampled from [0, max_steps-1);
+/// 302 demotes the highest-priority offered task instead of the running one; 303 counts
+/// single-choice steps; 304 uses `depth` change points; 305 runs one iteration too many;
+/// 306 priorities not reshuffled (oldest first forever); 307 change-point demotion moves the task
+/// to the *highest* priority
+#[derive(Debug)]
+pub struct PctCopy {
+    kind: u32,
+    max_iterations: usize,
+    max_depth: usize,
+    iterations: usize,
+    priorities: HashMap<TaskId, usize>,
+    next_priority: usize,
+    change_points: Vec<usize>,
+    max_steps: usize,
+    steps: usize,
+    rng: Pcg64Mcg,
+    data_source: RandomDataSource,
+}
+impl PctCopy {
+    pub fn new(kind: u32, seed: u64, max_depth: usize, max_iterations: usize) -> Self {
+        PctCopy {
+            kind, max_iterations, max_depth, iterations: 0,
+            priorities: (0..16).map(|i| (TaskId::from(i), i)).collect(),
+            next_priority: 16, change_points: vec![], max_steps: 0, steps: 0,
+            rng: Pcg64Mcg::seed_from_u64(seed), data_source: RandomDataSource::initialize(seed),
+        }
+    }
+}
+impl Scheduler for PctCopy {
+    fn new_execution(&mut self) -> Option<Schedule> {
+        let lim = if self.kind == 305 { 1 } else { 0 };
+        if self.iterations >= self.max_iterations + lim {
+            return None;
+        }
+        self.steps = 0;
+        if self.iterations > 0 {
+            assert!(self.max_steps > 0, "test closure did not exercise any concurrency");
+            let mut priorities = (0..self.priorities.len()).collect::<Vec<_>>();
+            if self.kind != 306 {
+                priorities.shuffle(&mut self.rng);
+            }
+            for (i, priority) in priorities.into_iter().enumerate() {
+                self.priorities.insert(TaskId::from(i), priority);
+            }
+            self.next_priority = self.priorities.len();
+            let d = if self.kind == 304 { self.max_depth } else { self.max_depth - 1 };
+            let num_points = std::cmp::min(d, self.max_steps - 1);
+            let off = if self.kind == 301 { 0 } else { 1 };
+            self.change_points = sample(&mut self.rng, self.max_steps - 1, num_points).iter().map(|v| v + off).collect();
+        }
+        self.iterations += 1;
+        Some(Schedule::new(self.data_source.reinitialize()))
+    }
+    fn next_task(&mut self, runnable: &[&Task], current: Option<TaskId>, is_yielding: bool) -> Option<TaskId> {
+        let max_known_task = self.priorities.len();
+        let max_new_task = usize::from(runnable.iter().map(|t| t.id()).max().unwrap());
+        for new_task_id in max_known_task..1 + max_new_task {
+            let new_task_id = TaskId::from(new_task_id);
+            let target_task_id = TaskId::from(self.rng.gen_range(0..self.priorities.len()) + 1);
+            let new_task_priority = if target_task_id == new_task_id {
+                self.next_priority
+            } else {
+                self.priorities.insert(target_task_id, self.next_priority).expect("priority queue invariant")
+            };
+            self.priorities.insert(new_task_id, new_task_priority);
+            self.next_priority += 1;
+        }
+        if runnable.len() > 1 || self.kind == 303 {
+            if self.change_points.contains(&self.steps) || is_yielding {
+                let victim = if self.kind == 302 && !is_yielding {
+                    runnable.iter().min_by_key(|t| self.priorities.get(&t.id())).map(|t| t.id())
+                } else {
+                    current
+                };
+                if let Some(v) = victim {
+                    if self.kind == 307 && !is_yielding {
+                        let minp = *self.priorities.values().min().unwrap();
+                        if minp > 0 {
+                            self.priorities.insert(v, minp - 1);
+                        } else {
+                            for (_, p) in self.priorities.iter_mut() { *p += 1; }
+                            self.next_priority += 1;
+                            self.priorities.insert(v, 0);
+                        }
+                    } else {
+                        self.priorities.insert(v, self.next_priority);
+                        self.next_priority += 1;
+                    }
+                }
+            }
+            self.steps += 1;
+            if self.steps > self.max_steps {
+                self.max_steps = self.steps;
+            }
+        }
+        Some(runnable.iter().min_by_key(|t| self.priorities.get(&t.id())).expect("priority queue invariant").id())
+    }
+    fn next_u64(&mut self) -> u64 {
+        self.data_source.next_u64()
+    }
+}
